@@ -166,6 +166,7 @@ type State struct {
 	threadSeq int
 	phase    int
 	exiting  *Thread // transient: thread whose exit is being scheduled
+	kern     *Kernel
 	covers   map[string]bool
 }
 
@@ -218,6 +219,9 @@ func (s *State) clone() *State {
 	n.instrChoices = append([]int(nil), s.instrChoices...)
 	n.threadSeq = s.threadSeq
 	n.phase = s.phase
+	if s.kern != nil {
+		n.kern = s.kern.clone()
+	}
 	if s.waitMap != nil {
 		n.waitMap = make(map[int]waitSpec, len(s.waitMap))
 		for k, v := range s.waitMap {
@@ -289,6 +293,9 @@ func (s *State) loadLeaves(p PtrV, n int) []Value {
 		panic(engineErr("load through nil pointer (unchecked)"))
 	}
 	o := s.obj(p.Obj)
+	if o.Tag == "unmapped" {
+		s.report("fault", "read of memory-mapped file memory after it was unmapped", s.currentModel(), "sat")
+	}
 	if o.Virtual && p.Off >= 0 && p.Off+n > len(o.Cells) {
 		o = s.materialize(p.Obj, p.Off+n)
 	}
